@@ -12,7 +12,11 @@ from ..models import Svc
 
 PROPERTY_ID = "C07"
 LEVEL = "fault_enumeration"
-RULE = ("Scenario = 2..5 real instances on one simulated link (mixed single/split socket layouts), 1..6 services of 1..3 types, "
+RULE = ("(two_links) a multi-homed responder - one IPv6 interface and sender socket on each of two links, one wildcard listen "
+        "socket - registers / updates / withdraws 1..3 services, a browser host on each link (single or split sockets); the simulated "
+        "kernel routes a multicast datagram by the scope id of its destination when given, else by the socket's interface; both "
+        "browsers must converge and resolve (no loss, 15 ms jitter). (main) "
+        "Scenario = 2..5 real instances on one simulated link (mixed single/split socket layouts), 1..6 services of 1..3 types, "
         "browsers started before, during and after registrations, a timeline of register / update / unregister / close at random "
         "virtual times over ~20 s (optionally a late browser started 0.2..1.05 x the cached pointer TTL later, i.e. minutes to more "
         "than an hour, when SRV/TXT/address records have expired and the pointer is stale or gone), and an application-style service-info lookup (3 s) spawned from every Added callback. Each "
@@ -36,7 +40,8 @@ SETTLE_MS = 15000.0
 
 def floors(tier):
     q = tier == "quick"
-    return {"c07.converged": 8000 if q else 300000, "c07.lookup": 3000 if q else 100000}
+    return {"c07.converged": 8000 if q else 300000, "c07.lookup": 3000 if q else 100000,
+            "c07.two_links": 200 if q else 8000, "c07.two_links.lookup": 150 if q else 6000}
 
 
 def plan(tier, seed):
@@ -44,7 +49,7 @@ def plan(tier, seed):
         n, per, drops = 16, 25, 20
     else:
         n, per, drops = 64, 40, 0      # 0 = every k
-    return [{"seed": seed, "shard": i, "per": per, "drops": drops, "tier": tier} for i in range(n)]
+    return [{"seed": seed, "shard": i, "per": per, "drops": drops, "tier": tier, "two_links": 6 if tier == "quick" else 60} for i in range(n)]
 
 
 def gen_scenario(rng: random.Random) -> Dict[str, Any]:
@@ -509,11 +514,163 @@ def run_scenario(res: Result, seed: int, n_drops: int) -> None:
         res.sample({"hosts": len(sc["hosts"]), "ops": desc["ops"][:6], "datagrams": N, "drops_tried": len(ks), "kinds": {k: kinds.count(k) for k in set(kinds)}})
 
 
+# ---------------------------------------------------------------------------------------
+# a multi-homed responder: two links, one IPv6 interface on each
+
+
+def run_two_links(res: Result, seed: int) -> None:
+    """A machine with one IPv6 interface on each of two links (one sender socket per interface, one wildcard listen socket that
+    has joined the group on both) registers, updates and withdraws services; a browser host sits on each link.  Both browsers
+    must converge - each link is served by the datagrams that leave through *its* interface (the simulated kernel routes a
+    multicast datagram by the scope id in its destination when one is given, by the socket's interface otherwise).  No loss,
+    little jitter: what is judged here is the topology, not the schedule."""
+    from zeroconf import IPVersion, ServiceListener
+    from zeroconf.asyncio import AsyncServiceBrowser, AsyncServiceInfo
+    rng = random.Random(seed)
+    res.evaluations += 1
+    T = TYPES[0]
+    m_v4 = rng.random() < 0.5
+    b0_layout = rng.choice(["single", "split"])
+    b1_layout = rng.choice(["single", "split"])
+    nsvc = rng.choice([1, 2, 3])
+    svcs = []
+    for i in range(nsvc):
+        sp = R.gen_service(rng, type_=T, min_ttl=10)
+        sp.name = "two%d.%s" % (i, T)
+        sp.server = "mhost.local."
+        sp.addrs4, sp.addrs6 = [b"\x0a\x00\x00\x01"], [b"\xfe\x80" + b"\0" * 13 + b"\xa1"]
+        svcs.append({"spec": sp, "reg": float(rng.choice([0, 100, 2500])), "fate": rng.choice(["stay", "stay", "unregister", "update"]),
+                     "when": float(rng.choice([9000, 12000]))})
+    browse_at = [float(rng.choice([0, 50, 400, 3000, 6000])) for _ in range(2)]
+    desc = {"family": "two_links", "m_v4": m_v4, "b0": b0_layout, "b1": b1_layout, "browse_at": browse_at,
+            "svcs": [{"name": x["spec"].name, "reg": x["reg"], "fate": x["fate"], "when": x["when"]} for x in svcs]}
+
+    def viol(kind: str, detail: str, **sig: Any) -> None:
+        res.violation("c07.two_links", kind, detail, sig, {"seed": seed, "two_links": True, "scenario": desc})
+
+    state: Dict[Tuple[int, str], str] = {}
+    lookups: List[Dict[str, Any]] = []
+    out: Dict[str, Any] = {}
+    policy = simnet.Policy(random.Random(seed ^ 0x77), max_delay_ms=15.0, dup_p=rng.choice([0.0, 0.0, 0.1]))
+    with simnet.Sim(seed & 0xFFFF, policy=policy) as sim:
+        class BL(ServiceListener):
+            def __init__(self, bid: int):
+                self.bid = bid
+
+            def add_service(self, zc: Any, t: str, n: str) -> None:
+                state[(self.bid, n.lower())] = "A"
+                rec = {"bid": self.bid, "name": n.lower(), "start": sim.now_ms(), "done": None, "result": None}
+                lookups.append(rec)
+
+                async def look() -> None:
+                    info = AsyncServiceInfo(t, n)
+                    try:
+                        rec["result"] = bool(await info.async_request(zc, 3000))
+                        rec["port"] = info.port
+                    except Exception as e:  # noqa
+                        rec["result"] = "exc:%r" % (e,)
+                    rec["done"] = sim.now_ms()
+                asyncio.ensure_future(look())
+
+            def remove_service(self, zc: Any, t: str, n: str) -> None:
+                state[(self.bid, n.lower())] = "R"
+
+            def update_service(self, zc: Any, t: str, n: str) -> None:
+                pass
+
+        async def main():
+            m = sim.net.add_host("M", "10.0.0.1" if m_v4 else None, "fe80::a1", layout="split", ip6b="fe80::a2")
+            b0 = sim.net.add_host("B0", None, "fe80::b0", layout=b0_layout, link=0)
+            b1 = sim.net.add_host("B1", None, "fe80::b1", layout=b1_layout, link=1)
+            am = await sim.start_host(m)
+            a0 = await sim.start_host(b0)
+            a1 = await sim.start_host(b1)
+            T0 = sim.now_ms()
+            out["T0"] = T0
+            gone: Dict[str, float] = {}
+            ports: Dict[str, Set[int]] = {}
+            out["gone"], out["ports"] = gone, ports
+
+            async def life(x: Dict[str, Any]) -> None:
+                await sim.sleep_until_ms(T0 + x["reg"])
+                info = R.make_info(x["spec"])
+                ports.setdefault(x["spec"].name.lower(), set()).add(x["spec"].port)
+                await (await am.zeroconf.async_register_service(info))
+                if x["fate"] == "stay":
+                    return
+                await sim.sleep_until_ms(T0 + x["when"])
+                if x["fate"] == "unregister":
+                    gone[x["spec"].name.lower()] = sim.now_ms()
+                    await (await am.zeroconf.async_unregister_service(info))
+                else:
+                    sp2 = R.gen_service(rng, name=x["spec"].name, type_=T, min_ttl=10)
+                    sp2.server, sp2.addrs4, sp2.addrs6 = x["spec"].server, x["spec"].addrs4, x["spec"].addrs6
+                    ports[x["spec"].name.lower()].add(sp2.port)
+                    await (await am.zeroconf.async_update_service(R.make_info(sp2)))
+
+            async def browse(bid: int, azc: Any, at: float) -> Any:
+                await sim.sleep_until_ms(T0 + at)
+                return AsyncServiceBrowser(azc.zeroconf, T, listener=BL(bid))
+
+            results = await asyncio.gather(*([life(x) for x in svcs] + [browse(0, a0, browse_at[0]), browse(1, a1, browse_at[1])]))
+            await sim.sleep_until_ms(T0 + 12000.0 + 1000.0 + SETTLE_MS)
+            out["T_eval"] = sim.now_ms()
+            out["state"] = dict(state)
+            for b in results[-2:]:
+                await b.async_cancel()
+            for a in (am, a0, a1):
+                await a.async_close()
+
+        try:
+            sim.run(main())
+        except Exception as e:
+            viol("exception", "exception during scenario: %r\n%s" % (e, tb()), exc_type=type(e).__name__)
+            return
+        escapes = [e for e in sim.net.escapes if "was destroyed but it is pending" not in str(e.get("message"))]
+        for esc in escapes[:1]:
+            viol("loop_exception", repr(esc)[:800])
+        trace = list(sim.net.trace)
+    # what each link was sent: multicast datagrams of M by the link they left through
+    by_link: Dict[Any, int] = {}
+    for e in trace:
+        if e["host"] == "M" and e["mcast"]:
+            by_link[e["egress"]] = by_link.get(e["egress"], 0) + 1
+    acc = res.extra.setdefault("two_links_multicast_of_M_by_egress_link", {})
+    for k, v in by_link.items():
+        acc[str(k)] = acc.get(str(k), 0) + v
+    for bid in (0, 1):
+        for x in svcs:
+            name = x["spec"].name.lower()
+            res.mon("c07.two_links")
+            st = out["state"].get((bid, name))
+            if name in out["gone"]:
+                if st == "A":
+                    viol("withdrawn_service_still_reported", "browser on link %d still reports %s %.0f ms after it was withdrawn (multicast datagrams of M by egress link: %r)" % (
+                        bid, name, out["T_eval"] - out["gone"][name], by_link), link=bid)
+            elif st != "A":
+                viol("registered_service_not_reported", "browser on link %d reports %s as %r %.0f ms after the last change although it is registered (multicast datagrams of M by egress link: %r)" % (
+                    bid, name, st, SETTLE_MS, by_link), link=bid)
+    for rec in lookups:
+        name = rec["name"]
+        if name in out["gone"] and out["gone"][name] < rec["start"] + 3100.0:
+            continue
+        res.mon("c07.two_links.lookup")
+        if rec["result"] is not True:
+            viol("lookup_failed", "lookup of %s by the browser on link %d, started %.0f ms after T0 while the service was registered, returned %r" % (
+                name, rec["bid"], rec["start"] - out["T0"], rec["result"]), link=rec["bid"])
+        elif rec.get("port") not in out["ports"].get(name, set()):
+            viol("lookup_wrong_port", "lookup of %s on link %d reports port %r, registered %r" % (name, rec["bid"], rec.get("port"), sorted(out["ports"].get(name, []))), link=rec["bid"])
+    res.cls("two_links", "m_v4=%s" % m_v4, b0_layout, b1_layout, "+".join(sorted({x["fate"] for x in svcs})))
+
+
+
 def run_shard(spec):
     res = Result()
     rng = rng_for("c07", spec["seed"], spec["shard"])
     for _ in range(spec["per"]):
         run_scenario(res, rng.randrange(1 << 30), spec["drops"])
+    for _ in range(spec.get("two_links", 0)):
+        run_two_links(res, rng.randrange(1 << 30))
     return res
 
 
@@ -521,6 +678,9 @@ def replay(blob):
     res = Result()
     if "witness" in blob:
         run_witness(res, blob["witness"])
+        return res
+    if blob.get("two_links"):
+        run_two_links(res, blob["seed"])
         return res
     rng = random.Random(blob["seed"])
     sc = gen_scenario(rng)
